@@ -95,7 +95,7 @@ def parseOf (m : List (String × Option String)) : ParseFn := parseOfList m
 
 def decCtor (s : String) : Option Ctor :=
   if s == "new" then some .new else if s == "late" then some .late else if s == "zero" then some .zero
-  else if s == "value" then some .value else none
+  else if s == "value" then some .value else if s == "redis" then some .redis else none
 
 def encCalls (all : List Call) : String :=
   let calls := all.filterMap fun c => c.pat.map fun p => encPattern p ++ "=" ++ encToks c.view
